@@ -10,5 +10,5 @@ s=open(p).read()
 assert s.count(old)>=1, "pattern not found"
 open(p,'w').write(s.replace(old,new,1))
 PY
-cd /verif && VERIF_BUDGET_S=${VERIF_BUDGET_S:-200} ./check $id quick | grep -E "^(VIOLATION|HARNESS|KNOWN|check=)" | cut -c1-${CUT:-300} | head -${HEAD:-8}
+cd /verif && VERIF_BUDGET_S=${VERIF_BUDGET_S:-200} ./check $id quick | grep -E "^(VIOLATION|HARNESS|UNREPRO|NOTE|check=)" | cut -c1-${CUT:-300} | head -${HEAD:-8}
 cd /repo && git checkout -- . 
